@@ -128,7 +128,25 @@ func (x *Exec) callCommon(fr *Frame, st *State, ins ssa.Instruction, cc *ssa.Cal
 	}
 	x.safety(fr, "nilfunc", cc.Value.Name(), st, not(eq(fv, intLit(0))), pos)
 	sig := cc.Signature()
-	x.havocCall(fr, st, ins, "dynamic call through "+cc.Value.Name(), sig, x.args(fr, st, cc), cc.Args, res)
+	dynArgs := x.args(fr, st, cc)
+	x.havocCall(fr, st, ins, "dynamic call through "+cc.Value.Name(), sig, dynArgs, cc.Args, res)
+	// call history: a call through a function-typed parameter or local is recorded under the
+	// variable's source name
+	if nm := funcVarName(cc.Value); nm != "" && x.recordsCalls(fr) && x.vc.noName == 0 {
+		x.callSeq++
+		rec := &callRec{called: tTrue, args: dynArgs, seq: intLit(int64(x.callSeq))}
+		if res != nil {
+			if t, ok := fr.regs[res]; ok {
+				rec.results = []Term{t}
+			} else if tup, ok := fr.tuples[res]; ok {
+				rec.results = tup
+			}
+		}
+		if st.calls == nil {
+			st.calls = map[string]*callRec{}
+		}
+		st.calls[nm] = rec
+	}
 }
 
 // recordsCalls: the call history of a unit holds the calls made by the function under
@@ -146,6 +164,19 @@ func (x *Exec) recordsCalls(fr *Frame) bool {
 		}
 	}
 	return false
+}
+
+// funcVarName: the source name of the variable a dynamically called function value is read from.
+func funcVarName(v ssa.Value) string {
+	switch t := v.(type) {
+	case *ssa.Parameter:
+		return t.Name()
+	case *ssa.UnOp:
+		if a, ok := t.X.(*ssa.Alloc); ok {
+			return a.Comment
+		}
+	}
+	return ""
 }
 
 func (x *Exec) closureCall(fr *Frame, st *State, ins ssa.Instruction, cc *ssa.CallCommon, c *closure, res ssa.Value) {
